@@ -22,6 +22,7 @@ def run(ctx):
     T = K.types(repo)
     ctx.each(r16a, ctx, repo, T)
     ctx.each(r16b, ctx, repo, T)
+    ctx.each(r16k, ctx, repo, T)
     ctx.each(r16c, ctx, repo)
     ctx.each(r16d, ctx, repo)
     ctx.each(r16e, ctx, repo)
@@ -609,3 +610,25 @@ def r16j(ctx, repo):
     mk = [c for c in own_nodes(ws.node) if isinstance(c, ast.Call) and ast.unparse(c.func) == "TimeDependentValuesEntry"]
     ok = bool(mk) and all(len(c.args) >= 2 and ast.unparse(c.args[1]) == "%s.tvec" % K.self_name(ws) or (astq.kwarg(c, "tvec") is not None and ast.unparse(astq.kwarg(c, "tvec")) == "%s.tvec" % K.self_name(ws)) for c in mk)
     ctx.check(ok, "R16j", ws, enclosing_stmt(mk[0]) if mk else ws.node, "every spending table is written on the ProgramSet's axis", "_write_spending does not create each table on self.tvec", stmt_text="write-axis")
+
+
+def r16k(ctx, repo, T):
+    ctx.rule("R16k", "names of different kinds are not compared with each other: where the two sides of ==, != or in have definite and different sorts (parameter / population / program / compartment name - from the class whose .name it is, or from the position in a covouts key) the comparison is always false; this catches keys of (parameter, population) mappings unpacked the wrong way round")
+    n = 0
+    SORTN = {PROG: "program", COMP: "compartment", POP: "population", PAR: "parameter"}
+    for fi in repo.all_functions():
+        if fi.module.name.split(".")[-1] in ("migration", "plotting"):
+            continue
+        if not any(isinstance(x, ast.Attribute) and x.attr == "covouts" for x in own_nodes(fi.node)):
+            continue
+        sorts = name_sorts(repo, T, fi)
+        for c in own_nodes(fi.node):
+            if isinstance(c, ast.Compare) and len(c.ops) == 1 and isinstance(c.ops[0], (ast.Eq, ast.NotEq)):
+                a = sort_of_expr(repo, T, fi, c.left, sorts)
+                b = sort_of_expr(repo, T, fi, c.comparators[0], sorts)
+                if a is None or b is None:
+                    continue
+                n += 1
+                ctx.check(a == b, "R16k", fi, enclosing_stmt(c), "`%s` compares two %s names" % (ast.unparse(c)[:50], SORTN[a]), "`%s` compares a %s name with a %s name: it is never true, so whatever it selects (parameters that programs overwrite, entries to remove) is silently empty" % (ast.unparse(c)[:70], SORTN[a], SORTN[b]))
+    ctx.extra["sorted_name_comparisons"] = n
+    ctx.ok("R16k", "atomica", "%d comparisons between names of definite sort examined" % n)
